@@ -2,7 +2,7 @@
 # usage: run.sh <Cxx> <quick|thorough> [--replay file]
 # Rebuilds the harness from /repo's working tree, runs the check, writes evidence/<Cxx>.json.
 set -uo pipefail
-VERIF=${VERIF_DIR:-/verif}
+VERIF=${VERIF_DIR:-$(cd "$(dirname "$0")" && pwd)}
 PROP=$1; TIER=${2:-quick}; shift; shift || true
 SEED=${VERIF_SEED:-1}
 TIER=${VERIF_TIER_OVERRIDE:-$TIER}
